@@ -456,7 +456,9 @@ func (app *App) buildTree() *App {
 		tsMap := make(map[int][]*Route)
 		for _, route := range app.stack[m] {
 			treePathHash := 0
-			if len(route.routeParser.segs) > 0 && len(route.routeParser.segs[0].Const) >= maxDetectionPaths {
+			if len(route.routeParser.segs) > 0 && len(route.routeParser.segs[0].Const) >= maxDetectionPaths &&
+				// "/a/" followed by an optional parameter also matches the two byte path "/a"
+				!(route.routeParser.segs[0].HasOptionalSlash && len(route.routeParser.segs[0].Const) == maxDetectionPaths) {
 				treePathHash = int(route.routeParser.segs[0].Const[0])<<16 |
 					int(route.routeParser.segs[0].Const[1])<<8 |
 					int(route.routeParser.segs[0].Const[2])
